@@ -21,6 +21,7 @@ type world struct {
 	hasPred  bool
 	now      uint64 // current base time in ns
 	price    int64
+	discrete bool // correct observers report one of two values per stream (so that a mode aggregate exists)
 	verbose  bool // Config.VerboseLogging (must not change any result)
 	alias    int  // when non-zero: every stream s also exists as the different stream s+alias (same low bits)
 }
@@ -56,6 +57,7 @@ func newWorld(g *G) *world {
 		w.alias = []int{1 << 8, 1 << 16, 1 << 24, 1 << 31}[g.R.Intn(4)]
 	}
 	w.verbose = g.R.Intn(4) == 0
+	w.discrete = g.R.Intn(3) == 0
 	return w
 }
 
@@ -125,7 +127,11 @@ func (w *world) advance() {
 
 func (w *world) honestValue(sid int) any {
 	g := w.g
-	p := decimal.New(w.price+int64(sid)*10+int64(g.R.Intn(7))-3, -2)
+	jitter := int64(g.R.Intn(7)) - 3
+	if w.discrete {
+		jitter = int64(g.R.Intn(4) / 3) // mostly identical values: the mode aggregator finds f+1 of them
+	}
+	p := decimal.New(w.price+int64(sid)*10+jitter, -2)
 	switch sid % 3 {
 	case 0:
 		return svJ(&llo.Quote{Bid: p.Sub(decimal.New(1, 0)), Benchmark: p, Ask: p.Add(decimal.New(1, 0))})
